@@ -42,6 +42,7 @@ pub struct LockScenario {
 }
 
 fn sp() {
+    crate::simclock::advance(10_000);
     shuttle::thread::sleep(std::time::Duration::from_secs(0));
 }
 
@@ -112,6 +113,7 @@ pub fn evaluate(sc: &LockScenario) -> (Option<Finding>, Option<ExecInfo>) {
     }
     let sc2 = sc.clone();
     let out = run_sim(&sc.spec, move || {
+        crate::simclock::reset();
         let locks: Arc<Vec<StdLock<u128>>> = Arc::new((0..sc2.n_locks).map(|_| StdLock::new(0u128)).collect());
         let mut bit = 0u32;
         let mut handles = Vec::new();
